@@ -674,6 +674,29 @@ func genC13(c *corpus, seed uint64) *scn.Scenario {
 	if len(kinds) == 0 {
 		kinds = c13Ops
 	}
+	if withFaults && r.chance(20) {
+		// fault scan: one operation kind cut short at consecutive positions (the
+		// executor takes the position modulo the operation's length), so that one
+		// run places a fault inside every small region of the operation; the
+		// tree is checked after each. A temporary edit that is undone on the
+		// normal path only is found wherever in the operation it is made.
+		kind := []string{"traverse", "traverse", "print", "printP", "dump", "dumpTP", "dumpT"}[r.n(7)]
+		fk := "abort"
+		if kind != "traverse" {
+			fk = wfaults[r.n(len(wfaults))]
+		}
+		base, step := r.n(100000), 1+r.n(3)
+		if n < 12 {
+			n = 12 + r.n(36)
+		}
+		for i := 0; i < n; i++ {
+			s.History = append(s.History, scn.Op{Kind: kind, Fault: &scn.WFault{Kind: fk, At: base + i*step}})
+			if r.chance(12) {
+				s.History = append(s.History, scn.Op{Kind: c13Ops[r.n(len(c13Ops))]})
+			}
+		}
+		n = 0
+	}
 	for i := 0; i < n; i++ {
 		if r.chance(4) {
 			s.History = append(s.History, scn.Op{Kind: "gc"})
